@@ -295,6 +295,12 @@ def random_spec(rng, family="any", n_max=8, a_max=4, label_kind=None, uniform_ac
         dup_states = {d_[0] for d_ in sp.meta.get("dup", [])}
         cands = [key for key, lst in sp.P.items() if sp.kind[key] == "dict" and sum(1 for _, q in lst if q > 0) >= 2
                  and key[0] not in {states[i] for i in absorbing} and repr(key[0]) not in dup_states]
+        if family == "proper":
+            # the rare successor must not be the only way up the rank order (else a trial takes ~1/d steps): the
+            # successor that receives the moved mass has to be a move up
+            rk = {t: j for j, t in enumerate(states)}
+            cands = [key for key in cands
+                     if rk[[t for t, q in sp.P[key] if q > 0][0]] > rk[key[0]]]
         if cands:
             key = rng.choice(sorted(cands, key=repr))
             lst = list(sp.P[key])
